@@ -86,4 +86,14 @@ CHECKS = {
           "(next seq on the ring, never 0; rate cap; time field = clock second; direction byte; exactly one seal with nonce = first 12 and AAD = all 20 header bytes; sealed under the session key as verified by the "
           "harness's own AES-GCM; no payload bytes in clear), and the table of all (key, nonce) pairs grouped by sequence number is judged pairwise distinct."),
     note=("Non-decreasing clock and 32-bit seconds assumed (as stated). Cryptographic strength of AES-GCM assumed. Preset session key: handshake datagrams are C02's; the quick tier wraps the counter once per direction, the thorough tier three times.")),
+ "C01": dict(
+    level="model_checking",
+    technique="TLC model checking of specs/Gate.tla (decision rule + action properties) + every (situation, datagram class) of the TLC-enumerated table concretised into real forged bytes and injected into real endpoints + byte-level tamper sweep of genuine datagrams, all judged by TLC (Obs_Gate)",
+    text=("Gate!Outcome is the rule (keyed: only datagrams sealed under the key; un-keyed: only the single hello of the right direction). TLC checks the rule's action properties and writes every "
+          "(situation, class) pair with the prescribed outcome; the harness builds real endpoints through the real handshake into a rich situation (pending acks with callbacks, half-received fragments, "
+          "undelivered genuine datagrams), concretises each class (valid-CRC plaintext of every type x count x inner types, wrong-key AES-GCM, recorded genuine datagrams fresh/duplicate/stale, trailing bytes, "
+          "random) and compares a before/after snapshot of everything an accepted datagram may change; every single-bit flip, truncation, extension and header-field rewrite (with and without a recomputed CRC) of "
+          "genuine datagrams, delivered and undelivered, is injected too. TLC judges every observation."),
+    note=("Unforgeability of AES-GCM is assumed. The snapshot reads internal attributes through a tolerant projection (a missing attribute downgrades that comparison). Server-loop level injection "
+          "(pool gate, other clients untouched) is C11's check; what the pre-key hello itself may do is C02's.")),
 }
